@@ -318,6 +318,45 @@ theorem variant_compare_eq (eq : α → α → Bool) (a b : Var α) : Var.compar
   unfold Var.compare Var.eq
   by_cases h : a.idx = b.idx <;> simp [h]
 
+/-! ### tuples, variants and records whose positions have types of their own (nest `Pair` / `SumV` for any arity) -/
+/-- `tuple<A, B>` (and, nested, any arity): `==` holds exactly when every position is equal -/
+theorem hetero_tuple_eq_iff_components {eqA : α → α → Bool} {eqB : β → β → Bool} (hA : LawfulEq eqA) (hB : LawfulEq eqB)
+    (a b : α × β) : Pair.eq eqA eqB a b = true ↔ a = b := Pair.eq_iff hA hB a b
+/-- the three-position instance used by the harness, `tuple<int, long, short>` -/
+theorem hetero_tuple3_eq_iff_components {γ : Type} {eqA : α → α → Bool} {eqB : β → β → Bool} {eqC : γ → γ → Bool}
+    (hA : LawfulEq eqA) (hB : LawfulEq eqB) (hC : LawfulEq eqC) (a b : α × β × γ) :
+    Pair.eq eqA (Pair.eq eqB eqC) a b = true ↔ a = b := Pair.eq_iff hA (Pair.eq_iff hB hC) a b
+theorem hetero_tuple_eq_equivalence {eqA : α → α → Bool} {eqB : β → β → Bool} (hA : LawfulEq eqA) (hB : LawfulEq eqB) :
+    IsEquivalence (Pair.eq eqA eqB) := LawfulEq.isEquivalence (Pair.eq_iff hA hB)
+theorem hetero_tuple_ne_eq_not (eqA : α → α → Bool) (eqB : β → β → Bool) (a b : α × β) :
+    Pair.ne eqA eqB a b = !Pair.eq eqA eqB a b := rfl
+/-- `variant<A, B>` (nested: any number of alternatives, each with its own `==` / `<`) -/
+theorem hetero_variant_eq_iff_components {eqA : α → α → Bool} {eqB : β → β → Bool} (hA : LawfulEq eqA) (hB : LawfulEq eqB)
+    (a b : Sum α β) : SumV.eq eqA eqB a b = true ↔ a = b := SumV.eq_iff hA hB a b
+theorem hetero_variant3_eq_iff_components {γ : Type} {eqA : α → α → Bool} {eqB : β → β → Bool} {eqC : γ → γ → Bool}
+    (hA : LawfulEq eqA) (hB : LawfulEq eqB) (hC : LawfulEq eqC) (a b : Sum α (Sum β γ)) :
+    SumV.eq eqA (SumV.eq eqB eqC) a b = true ↔ a = b := SumV.eq_iff hA (SumV.eq_iff hB hC) a b
+theorem hetero_variant_eq_equivalence {eqA : α → α → Bool} {eqB : β → β → Bool} (hA : LawfulEq eqA) (hB : LawfulEq eqB) :
+    IsEquivalence (SumV.eq eqA eqB) := LawfulEq.isEquivalence (SumV.eq_iff hA hB)
+theorem hetero_variant_ne_eq_not (eqA : α → α → Bool) (eqB : β → β → Bool) (a b : Sum α β) :
+    SumV.ne eqA eqB a b = !SumV.eq eqA eqB a b := rfl
+theorem hetero_variant_lt_strict_weak {ltA : α → α → Bool} {ltB : β → β → Bool} (hA : StrictTotal ltA)
+    (hB : StrictTotal ltB) : StrictWeak (SumV.lt ltA ltB) := (SumV.lt_strictTotal hA hB).strictWeak
+theorem hetero_variant3_lt_strict_weak {γ : Type} {ltA : α → α → Bool} {ltB : β → β → Bool} {ltC : γ → γ → Bool}
+    (hA : StrictTotal ltA) (hB : StrictTotal ltB) (hC : StrictTotal ltC) :
+    StrictWeak (SumV.lt ltA (SumV.lt ltB ltC)) := (SumV.lt_strictTotal hA (SumV.lt_strictTotal hB hC)).strictWeak
+theorem hetero_variant_lt_compatible_eq {eqA ltA : α → α → Bool} {eqB ltB : β → β → Bool} (hA : LawfulEq eqA)
+    (hB : LawfulEq eqB) (hlA : StrictTotal ltA) (hlB : StrictTotal ltB) :
+    Compatible (fun a b => SumV.eq eqA eqB a b = true) (SumV.lt ltA ltB) :=
+  compatible_of (SumV.eq_iff hA hB) (SumV.lt_strictTotal hlA hlB)
+/-- `variant::compare` with the `==` of each alternative is `==` of the variants -/
+theorem hetero_variant_compare_eq (eqA : α → α → Bool) (eqB : β → β → Bool) (a b : Sum α β) :
+    SumV.compare eqA eqB a b = SumV.eq eqA eqB a b := SumV.compare_eq eqA eqB a b
+/-- a record against the same record type with its elements in another order: equal exactly when every label agrees -/
+theorem hetero_record_eq_permuted {eqA : α → α → Bool} {eqB : β → β → Bool} (hA : LawfulEq eqA) (hB : LawfulEq eqB)
+    (r1 : α × β) (r2 : β × α) : Rec2.eqPermuted eqA eqB r1 r2 = true ↔ (r1.1 = r2.2 ∧ r1.2 = r2.1) := by
+  simp [Rec2.eqPermuted, hA _ _, hB _ _]
+
 /-! ### tuple, array, enum array, math::vector, math::dim, math::matrix (index-wise `==`) -/
 theorem array_eq_iff_components {n : Nat} {eq : α → α → Bool} (he : LawfulEq eq) (a b : Vector α n) :
     equalV eq a b = true ↔ a = b := equalV_iff he a b
@@ -491,6 +530,26 @@ theorem raw_vector_hash_eq_of_eq {eq : α → α → Bool} (he : LawfulEq eq) (h
 theorem recursive_eq_iff_components {eq : α → α → Bool} (he : LawfulEq eq) (a b : α) :
     Recursive.eq eq a b = true ↔ a = b := he a b
 theorem recursive_ne_eq_not (eq : α → α → Bool) (a b : α) : Recursive.ne eq a b = !Recursive.eq eq a b := rfl
+
+/-! ### recursive exposes exactly the wrapped object (constructors, assignments, `get`) -/
+/-- `get` of a freshly constructed `recursive` is the value it was constructed from -/
+theorem recursive_get_exposes (v : α) : (RecCell.make v).get = .ok v := rfl
+/-- the copy constructor makes a new object: writing through the copy leaves the original alone -/
+theorem recursive_copy_independent (v w : α) :
+    ((RecCell.make v).copy >>= fun c => c.set w >>= RecCell.get) = .ok w ∧ (RecCell.make v).get = .ok v := ⟨rfl, rfl⟩
+/-- copy assignment: afterwards the target shows the source's value (whatever it held), the source is unchanged;
+assigning an object to itself changes nothing -/
+theorem recursive_assign (self other : RecCell α) (v : α) (h : other.get = .ok v) :
+    (RecCell.assign self other false >>= RecCell.get) = .ok v ∧ RecCell.assign self self true = .ok self := by
+  constructor
+  · unfold RecCell.assign
+    simp only [Bool.false_eq_true, if_false]
+    rw [h]; rfl
+  · rfl
+/-- moving hands the object over; the moved-from wrapper must not be read any more -/
+theorem recursive_move (r : RecCell α) : r.move.1.get = r.get ∧ r.move.2.get = .error .emptyDeref := ⟨rfl, rfl⟩
+/-- `*p` of a shared_ptr is the object at the stored pointer — the same for every owner -/
+theorem shared_ptr_get_exposes (mem : Nat → α) (p o₁ o₂ : Nat) : SPtr.get mem ⟨p, o₁⟩ = SPtr.get mem ⟨p, o₂⟩ := rfl
 
 /-! ### unit, iterator::range -/
 theorem unit_eq_iff_components (a b : Unit) : UnitT.eq a b = true ↔ a = b := by simp [UnitT.eq]
